@@ -7,7 +7,8 @@ ID = 'C10'
 TARGETS = ['SmppVerif.Props.C10']
 RULE = ('single code points x 3 modes (encode), every octet in both decoder states x 3 modes and all '
         'octet pairs (decode), all ordered pairs of alphabet characters, all strings of length <= 4 '
-        'over 8 class representatives x 3 modes, seeded random strings to length 64; a case is counted '
+        'over 8 class representatives x 3 modes, seeded random strings to length 64, texts encoded again after they went '
+        'through the plain and the packed codec (history independence); a case is counted '
         'as distinct-nontrivial per (operation, mode, character-class multiset / octet-class '
         'sequence, length bucket, outcome class)')
 TRUSTED = ['Lean 4.33.0 kernel', 'axioms: propext, Quot.sound (no Classical.choice needed)',
@@ -177,6 +178,26 @@ def is_case(text):
                 {'op': 'is', 'text': [ord(ch) for ch in text]})
 
 
+def hist_case(mode, text, k):
+    """the codec is a function of its input: the same text encoded once more after it (and its decoding) went through
+    the plain and the packed codec k times gives the same octets (caches, shared buffers)"""
+    from aiosmpplib.codec import find_codec_info
+    pk = find_codec_info('gsm0338_packed')
+    for _ in range(k):
+        for c in (codec(), pk):
+            try:
+                b = c.encode(text, mode)[0]
+                c.decode(b, mode)
+            except Exception:      # noqa
+                pass
+    case = enc_case(mode, text)
+    case.inp = {'op': 'hist', 'mode': mode, 'text': [ord(ch) for ch in text], 'k': k}
+    case.sig = ('hist',) + tuple(case.sig[1:])
+    if case.fail:
+        case.fail = 'after the same text went through the gsm0338 and gsm0338_packed codecs %d time(s): %s' % (k, case.fail)
+    return case
+
+
 REPS = ['A', '@', '€', '[', 'Α', '中', '\U0001F600', '\x1b']
 
 
@@ -239,9 +260,17 @@ def generate(rng, tier):
         n = rng.randrange(1, 40)
         data = [rng.choice((rng.randrange(128), rng.randrange(256), spec.ESC, 0x65)) for _ in range(n)]
         yield dec_case(rng.choice(MODES), data)
+    # 6. history independence: texts that have been through both codecs before
+    for _ in range(3000 if thorough else 500):
+        n = rng.randrange(1, 30)
+        p_out = rng.choice((0.0, 0.0, 0.1))
+        t = ''.join(rng.choice(pool_out) if rng.random() < p_out else rng.choice(pool_in) for _ in range(n))
+        yield hist_case(rng.choice(MODES), t, rng.randrange(1, 4))
 
 
 def replay(inp):
+    if inp['op'] == 'hist':
+        return hist_case(inp['mode'], ''.join(chr(c) for c in inp['text']), inp['k'])
     if inp['op'] == 'enc':
         return enc_case(inp['mode'], ''.join(chr(c) for c in inp['text']))
     if inp['op'] == 'dec':
